@@ -138,7 +138,10 @@ func (e *env) statusAll() {
 		rg := rs.H.Get("Range")
 		n := len(s.bytes)
 		ok := rg == fmt.Sprintf("0-%d", n-1)
-		if n == 0 && (rg == "" || rg == "0-0" || rg == "0--1") {
+		if n == 0 && (rg == "" || rg == "0--1") {
+			// nothing received: no range at all, or the registry's own spelling of "ends before it starts".  "0-0" is
+			// the status of a session that holds one byte - an answer that cannot tell the two apart does not report
+			// exactly the bytes received
 			ok = true
 		}
 		if !ok {
